@@ -17,10 +17,127 @@
     knowledge measure is exactly `max_s count(s) / N ∈ [0, 1]` (`km_is_max_frequency`).
   * `promoted_head_total`: after a promotion the head's particle total is the promoted node's `N` and positive
     (`uniform_int_distribution(1, beliefSize_)` is well-formed).
+  * `Ext`, `Sim.ext`, `advance_extends_subtree` (MCTS / POMCP): simulations only extend the tree, so after
+    `sampleAction(a, key, h)` with any number of iterations every node of the promoted subtree is still there with counts at
+    least as large, its old particles a prefix of the new list and its old returns still averaged in.
   * `rup_replaces_value`: the datapoint a node passes upwards is the one that turns a mean of `N - 1` copies of the old
     node value into `N` copies of the new one.
 -/
 import AITB.Props.C19
+
+namespace AITB.Tree
+
+/-! ### Simulations only ever extend the tree (what "keeps exactly the matching subtree" means once iterations follow) -/
+
+/-- `t'` extends `t`: no node disappears, no count goes down, particle lists grow at the end, the returns already
+    averaged into an action stay (new ones are consed in front) -/
+structure Ext (t t' : Tree) : Prop where
+  ex : ∀ q, t.ex q = true → t'.ex q = true
+  nN : ∀ q, t.nN q ≤ t'.nN q
+  aN : ∀ q a, t.aN q a ≤ t'.aN q a
+  parts : ∀ q, t.ex q = true → t.parts q <+: t'.parts q
+  rets : ∀ q a, t.rets q a <:+ t'.rets q a
+
+theorem Ext.refl (t : Tree) : Ext t t :=
+  ⟨fun _ h => h, fun _ => Nat.le_refl _, fun _ _ => Nat.le_refl _, fun _ _ => List.prefix_refl _, fun _ _ => List.suffix_refl _⟩
+
+theorem Ext.trans {a b c : Tree} (h1 : Ext a b) (h2 : Ext b c) : Ext a c :=
+  ⟨fun q h => h2.ex q (h1.ex q h), fun q => Nat.le_trans (h1.nN q) (h2.nN q), fun q x => Nat.le_trans (h1.aN q x) (h2.aN q x),
+   fun q h => (h1.parts q h).trans (h2.parts q (h1.ex q h)), fun q x => (h1.rets q x).trans (h2.rets q x)⟩
+
+theorem Ext.incN (t : Tree) (p : Path) : Ext t (t.incN p) := by
+  refine ⟨fun _ h => h, fun q => ?_, fun _ _ => Nat.le_refl _, fun _ _ => List.prefix_refl _, fun _ _ => List.suffix_refl _⟩
+  show t.nN q ≤ upd t.nN p (t.nN p + 1) q
+  by_cases hq : q = p
+  · subst hq; simp [upd]
+  · simp [upd, hq]
+
+theorem Ext.update (t : Tree) (p : Path) (a : Nat) (rew : Rat) : Ext t (t.update p a rew) := by
+  refine ⟨fun _ h => h, fun _ => Nat.le_refl _, fun q b => ?_, fun _ _ => List.prefix_refl _, fun q b => ?_⟩
+  · show t.aN q b ≤ upd t.aN p (updN (t.aN p) a (t.aN p a + 1)) q b
+    by_cases hq : q = p
+    · subst hq
+      by_cases hb : b = a
+      · subst hb; simp [upd, updN]
+      · simp [upd, updN, hb]
+    · simp [upd, hq]
+  · show t.rets q b <:+ upd t.rets p (updN (t.rets p) a (rew :: t.rets p a)) q b
+    by_cases hq : q = p
+    · subst hq
+      by_cases hb : b = a
+      · subst hb; simp only [upd, updN, if_true]; exact List.suffix_cons _ _
+      · simp only [upd, updN, hb, if_true, if_false]; exact List.suffix_refl _
+    · simp only [upd, hq, if_false]; exact List.suffix_refl _
+
+theorem Ext.descend {m : Mdl} {H : Nat} {t t1 : Tree} {p : Path} {depth : Nat} {st : Step} {mode : Mode}
+    (hd : descend m H t p depth st = some (t1, mode)) : Ext t t1 := by
+  obtain ⟨d1, d2, _, d4, _, _, hshape, _, _⟩ := descend_spec hd
+  cases hshape with
+  | created hc e1 e2 _ _ _ =>
+    refine ⟨fun q hq => ?_, fun q => by rw [d1], fun q a => by rw [d2], fun q hq => ?_,
+      fun q a => by rw [d4]; exact List.suffix_refl _⟩
+    · rw [e1]
+      by_cases hqc : q = p ++ [(st.a, m.key st)]
+      · simp [upd, hqc]
+      · simp only [upd, hqc, if_false]; exact hq
+    · rw [e2]
+      have hqc : q ≠ p ++ [(st.a, m.key st)] := by
+        intro h; rw [h, hc] at hq; simp at hq
+      simp only [upd, hqc, if_false]; exact List.prefix_refl _
+  | pushed hc e1 e2 _ =>
+    refine ⟨fun q hq => by rw [e1]; exact hq, fun q => by rw [d1], fun q a => by rw [d2],
+      fun q _ => ?_, fun q a => by rw [d4]; exact List.suffix_refl _⟩
+    rw [e2]
+    by_cases hqc : q = p ++ [(st.a, m.key st)]
+    · subst hqc; simp only [upd, if_true]; exact List.prefix_append _ _
+    · simp only [upd, hqc, if_false]; exact List.prefix_refl _
+  | untouched e _ _ => rw [e]; exact Ext.refl t
+
+/-- **every `simulate` call only extends the tree** -/
+theorem Sim.ext {m : Mdl} {H : Nat} {t t' : Tree} {p : Path} {s depth : Nat} {used : List Step} {r : Rat}
+    (h : Sim m H t p s depth used t' r) : Ext t t' := by
+  induction h with
+  | stop t p s depth st t1 _ _ _ hd =>
+    exact ((Ext.incN t p).trans (Ext.descend hd)).trans (Ext.update t1 p st.a _)
+  | roll t p s depth st t1 n used fr _ _ _ hd _ =>
+    exact ((Ext.incN t p).trans (Ext.descend hd)).trans (Ext.update t1 p st.a _)
+  | deeper t p s depth st t1 t2 used fr _ _ _ hd _ ih =>
+    exact (((Ext.incN t p).trans (Ext.descend hd)).trans ih).trans (Ext.update t2 p st.a _)
+
+theorem Sims.ext {m : Mdl} {H n : Nat} {t t' : Tree} {useds : List (List Step)} (h : Sims m H n t useds t') : Ext t t' := by
+  induction h with
+  | zero t => exact Ext.refl t
+  | succ n t t1 t2 s used r useds _ hS _ ih => exact hS.ext.trans ih
+
+/-- **advance_extends_subtree.**  `sampleAction(a, key, horizon)` on an existing child (POMCP: holding a particle), with
+    any number of iterations: the resulting tree *extends* the re-rooted `(a, key)` subtree of the old tree — every node
+    of that subtree is still there, under the same path, with counts at least as large, the old particles as a prefix
+    of its particle list and the old returns still among those averaged into its action values. -/
+theorem advance_extends_subtree {m : Mdl} {t t' : Tree} {a k : Nat} {parts : List Nat} {nA H iters : Nat} {log rest : List Step}
+    (hc : call m t (Op.adv a k parts nA H iters) log = some (t', rest)) (hex : t.ex [(a, k)] = true)
+    (hp : m.pomcp = true → t.parts [(a, k)] ≠ []) : Ext (t.reroot (a, k)) t' := by
+  unfold call at hc
+  split at hc
+  · simp at hc
+  · rename_i t0 H' iters' hprep
+    have h0 : Ext (t.reroot (a, k)) t0 := by
+      rcases advance_keeps_subtree hprep with ⟨_, hq⟩ | ⟨hno, _⟩
+      · refine ⟨fun q h => ?_, fun q => ?_, fun q b => ?_, fun q _ => ?_, fun q b => ?_⟩
+        · rw [(hq q).1]; exact h
+        · rw [(hq q).2.1]; exact Nat.le_refl _
+        · rw [(hq q).2.2.2.1]; exact Nat.le_refl _
+        · rw [(hq q).2.2.1]; exact List.prefix_refl _
+        · rw [(hq q).2.2.2.2.2.1]; exact List.suffix_refl _
+      · exfalso
+        rcases hno with h1 | ⟨h1, h2⟩
+        · rw [hex] at h1; simp at h1
+        · exact hp h1 h2
+    split at hc
+    · simp at hc; obtain ⟨rfl, _⟩ := hc; exact h0
+    · obtain ⟨useds, _, hS⟩ := runSims_sound m _ _ _ _ _ _ hc
+      exact h0.trans hS.ext
+
+end AITB.Tree
 
 namespace AITB.Tree.R
 
